@@ -159,6 +159,9 @@ type Event struct {
 	Result AV
 	Loc    string // store: location written
 	Val    AV     // store: value
+	// Parts: map update with an aggregate value: its parts when it was stored
+	// (selector below the aggregate -> value)
+	Parts  map[string]AV
 	Instr  ssa.Instruction
 	Fn     *ssa.Function // enclosing function (after inlining: the callee)
 	Static *ssa.Function // call: static in-repo/external callee if any
